@@ -38,6 +38,7 @@ var verifC09Templates = []string{
 	"B%n,t.ex,%t,%l,%d,port=53",
 	"H%n,t.ex,%t,%l,%d,alpn=h2",
 	"'t.ex,%x", // lean text line: the only free part is the text field (used with xs=2)
+	"'%n,%x",   // lean text line with a free owner byte and a free text field
 }
 
 var verifOwnerBytes = []byte{'a', 'A', '\\', ',', 0xff, '*', ':', ' ', 0x00, 0x7f, '-', '_', '7', '.'}
@@ -55,10 +56,11 @@ func verifOctal(b byte) []byte {
 // verifExpand renders a template; sep replaces the ',' field separators.
 var verifDigits []byte // the %d digits of the last expansion, in order
 var verifRawText []byte // the raw bytes behind the %x field of the last expansion
+var verifRawOwner []byte // the raw owner name behind the %n field of the last expansion
 
 func verifExpand(tmpl string, sep byte) []byte {
 	var out []byte
-	verifDigits, verifRawText = nil, nil
+	verifDigits, verifRawText, verifRawOwner = nil, nil, nil
 	for i := 0; i < len(tmpl); i++ {
 		c := tmpl[i]
 		if c == ',' {
@@ -75,6 +77,7 @@ func verifExpand(tmpl string, sep byte) []byte {
 			out = append(out, '%')
 		case 'n': // owner: one byte from the class pool + ".ex", quoted
 			raw := []byte{verifOwnerBytes[nd.Choice(nd.Param("own"))], 'o', '.', 'e', 'x'}
+			verifRawOwner = raw
 			out = append(out, quote.Bquote(raw)...)
 		case 'w': // optional wildcard prefix
 			if nd.Bool() {
@@ -122,6 +125,13 @@ func verifSameRecords(a, b []MapRecord, tag string) {
 	}
 }
 
+//verif:harness H17_field property=C17 native=yes quick=from=17,to=18,v2=1,own=1,xs=2;from=18,to=19,v2=1,own=14,xs=1 thorough=from=9,to=11,v2=0,own=14,xs=1
+
+// H17_field: C17's field-level clause (a name, text or rdata placed in a data-file field is read
+// back unchanged) is the "means the quoted bytes" part of the C09 round-trip harness on the text
+// and generic-rdata templates.
+func H17_field() { H09_roundtrip() }
+
 func H09_roundtrip() {
 	from, to := nd.Param("from"), nd.Param("to")
 	ti := from + nd.Choice(to-from)
@@ -143,6 +153,9 @@ func H09_roundtrip() {
 	switch x := r1.(type) {
 	case *Rtxt:
 		nd.Assert(bytes.Equal(x.txt, verifRawText), "text-field-means-the-quoted-bytes")
+		if verifRawOwner != nil {
+			nd.Assert(bytes.Equal(x.dom, verifRawOwner), "owner-field-means-the-quoted-bytes")
+		}
 	case *Raux:
 		nd.Assert(bytes.Equal(x.rdata, verifRawText), "generic-rdata-means-the-quoted-bytes")
 	}
